@@ -17,7 +17,7 @@ from sim.spec import spec_kinds
 from sim.world import run_plan
 from .base import Check, Verdict
 
-ALL_CONSTRAINTS = gen.TASK_CONSTRAINT_KINDS + gen.OPTIONAL_RULE_KINDS + gen.RESOURCE_CONSTRAINT_KINDS
+ALL_CONSTRAINTS = gen.TASK_CONSTRAINT_KINDS + gen.OPTIONAL_RULE_KINDS + gen.RESOURCE_CONSTRAINT_KINDS + ["GroupPrecedence"]
 
 
 class C05(Check):
